@@ -9,7 +9,7 @@ from plugingen import IMPORTS, NODES, pod_key, cwdump, cnodes, conf_trees, conf_
 DEPS = ["Strs", "Nets", "Pool", "NetsP", "PoolP", "Ipam", "IpamP", "Keys", "KeysP", "Plugin", "CorrBase", "Ipamc", "Pluginc",
         "PluginInv", "PluginInvL", "PluginKeyFacts", "PluginIpamFacts", "PluginEnvP", "PluginUnbindP", "PluginBindP", "PluginP",
         "PluginPool", "PluginC10Spec", "PluginC10P", "PluginWitness", "PluginPolicyP", "PluginPoolP", "PluginInfo", "PluginStickyP",
-        "PluginStaleP", "PluginLiveP"]
+        "PluginStaleP", "PluginLiveP", "PluginAnswerP", "PluginReplicasP"]
 
 RULE_COMMON = ("well-formed histories of plugin sections and environment operations: regression scenarios of the repaired "
                "defects, 'old versus new incarnation' races (kind x policy x requested ranges none/same/changed/multi x provider x "
@@ -289,7 +289,7 @@ def wf_prefix(hist, obs):
 
 
 def run(ctx, focus, theorems, refuted, monitors, nrandom=(150, 1500), per_config=(1, 4), extra_scenarios=(), wf_only=False,
-        gen_kw=None, ext=False, incarnations=True, fixed=True, all_steps=False):
+        gen_kw=None, ext=False, incarnations=True, fixed=True, all_steps=False, module=None):
     """monitors(hist, obs, nwf, keys) -> list of (coq bool expr, step index, kind, tags)"""
     ctx.cov["trusted_base"] = vf.TRUSTED_COMMON + [
         "harness fakes: client-go fake clientsets as the API server (pods/binding: NotFound if the pod is gone, conflict on another "
@@ -304,7 +304,7 @@ def run(ctx, focus, theorems, refuted, monitors, nrandom=(150, 1500), per_config
         "scheduler sends the pod UID with bind, reloads keep the IPs of live pods and their deletions succeed, no administrator "
         "reservations (crdIpam-level, C09)"]
     if theorems or refuted:
-        ctx.theorems(focus, theorems, refuted, deps=DEPS + [focus])
+        ctx.theorems(module or focus, theorems, refuted, deps=DEPS + [module or focus])
     rng = ctx.rng
     hists, labels = [], []
     for name, h in (fixed_scenarios() if fixed else []) + list(extra_scenarios):
@@ -560,6 +560,20 @@ def pool_scenarios(rng, ctx, n):
                     {"op": "filter_race", "ns": "ns1", "pods": [qa["Name"], qb["Name"]], "nodes": ["node1", "node2", "node3"]},
                     bnd(qa, "node1"), bnd(qb, "node1")]
             hs.append(("two-filters-race-for-the-pool:%d:%d" % (size, held), {"provider": False, "nodes": NODES, "conf": conf, "ops": ops}))
+    # two writers of one Pool object: a second POST /v1/pool (or kubectl / another replica writing the object) gets in right after
+    # (right before) the first request's Create / Update - while that request has not pre-allocated yet.  The request is ONE
+    # section under the pool mutex (K8, repaired), so a second request can only run afterwards
+    for at in ("create", "update"):
+        for kind in ("request", "object"):
+            for big, small, pre2 in ((5, 1, False), (3, 2, True), (2, 4, True), (4, 0, False)):
+                ops = [{"op": "dp_set", "ns": "ns1", "name": "job", "replicas": 3}]
+                if at == "update":
+                    ops += [{"op": "api_pool", "name": "p1", "size": 1, "prealloc": False}]
+                ops += [{"op": "api_pool", "name": "p1", "size": big, "prealloc": True,
+                         "meanwhile": dict({"kind": kind, "at": at, "size": small}, **({"prealloc": pre2} if kind == "request" else {}))}]
+                q = mkpod("job-7f9c6d-w", "w%s%s%d" % (at[0], kind[0], big), "dp", "job", 0, pool="p1")
+                ops += [{"op": "pool_set", "name": "p1", "size": small}, put(q), inf(q), flt(q), bnd(q, "node1")]
+                hs.append(("two-writers-of-the-pool:%s:%s:%d:%d" % (at, kind, big, small), {"provider": False, "nodes": NODES, "conf": conf, "ops": ops}))
     # K2, deterministic
     p1 = mkpod("job-7f9c6d-k1", "k1", "dp", "job", 0, pool="p1")
     p2 = mkpod("job-7f9c6d-k2", "k2", "dp", "job", 0, pool="p1")
@@ -590,6 +604,14 @@ def mon_c07(h, o, nwf, keys):
                 size = op["size"] if (k in ("api_pool", "pool_race") and op["name"] == name) else sizes.get(name)
                 if k == "pool_race" and sizes.get(name) is not None:
                     size = max(size, sizes[name])
+                mw = op.get("meanwhile") if (k == "api_pool" and op["name"] == name) else None
+                if mw:
+                    # a second writer of the Pool object: when it got in between this request's API calls, the size in force while
+                    # the request allocates is the one the object carries in the end; when it could only run afterwards the two
+                    # requests ran in a row, each under the size it wrote
+                    size = st.get("api_size") if st.get("meanwhile_during") else max(op["size"], mw["size"])
+                    if size is None:
+                        continue
                 if size is None:
                     continue
                 tags = []
